@@ -5,7 +5,7 @@
    source cssutils/css/cssmediarule.py sha1 e56afb4532eb
    source cssutils/css/csspagerule.py sha1 05addb068b02
    source cssutils/css/cssfontfacerule.py sha1 5df894b1ad47
-   source cssutils/css/cssstylesheet.py sha1 72965e57ad7b
+   source cssutils/css/cssstylesheet.py sha1 2464b234773c
 *)
 From Coq Require Import List NArith ZArith Bool.
 From CssV Require Import Base.Regex Base.Tokens.
